@@ -107,6 +107,10 @@ pub struct BoardInner {
     /// (the connection itself survives; the remote sees the stream reset)
     pub stream_faults: HashMap<usize, u32>,
     pub stream_faults_injected: u64,
+    /// muxer-level address changes waiting to be reported by (any) one connection of node `n`
+    pub address_changes: HashMap<usize, VecDeque<Multiaddr>>,
+    pub address_changes_reported: u64,
+    muxer_wakers: HashMap<usize, Vec<Waker>>,
 }
 
 #[derive(Clone)]
@@ -139,6 +143,9 @@ impl Board {
             src: HashMap::new(),
             stream_faults: HashMap::new(),
             stream_faults_injected: 0,
+            address_changes: HashMap::new(),
+            address_changes_reported: 0,
+            muxer_wakers: HashMap::new(),
         })))
     }
     pub fn with<R>(&self, f: impl FnOnce(&mut BoardInner) -> R) -> R {
@@ -169,6 +176,16 @@ impl Board {
         self.with(|b| {
             b.stream_faults.insert(node, k);
         })
+    }
+    /// the next connection of `node` whose muxer is polled reports `StreamMuxerEvent::AddressChange(addr)`
+    pub fn inject_address_change(&self, node: usize, addr: Multiaddr) {
+        let wakers = self.with(|b| {
+            b.address_changes.entry(node).or_default().push_back(addr);
+            b.muxer_wakers.remove(&node).unwrap_or_default()
+        });
+        for w in wakers {
+            w.wake();
+        }
     }
     pub fn dial_log(&self) -> Vec<DialRec> {
         self.with(|b| b.dials.clone())
@@ -573,6 +590,22 @@ where
         Pin::new(&mut self.inner).poll_close(cx)
     }
     fn poll(mut self: Pin<&mut Self>, cx: &mut Context<'_>) -> Poll<Result<libp2p_core::muxing::StreamMuxerEvent, Self::Error>> {
+        let node = self.node;
+        let change = self.board.with(|b| {
+            let c = b.address_changes.get_mut(&node).and_then(|q| q.pop_front());
+            if c.is_some() {
+                b.address_changes_reported += 1;
+            } else {
+                let ws = b.muxer_wakers.entry(node).or_default();
+                if ws.len() < 256 && !ws.iter().any(|w| w.will_wake(cx.waker())) {
+                    ws.push(cx.waker().clone());
+                }
+            }
+            c
+        });
+        if let Some(addr) = change {
+            return Poll::Ready(Ok(libp2p_core::muxing::StreamMuxerEvent::AddressChange(addr)));
+        }
         Pin::new(&mut self.inner).poll(cx)
     }
 }
